@@ -260,3 +260,63 @@ VARIANTS["C17"] = [
     V("twin-tscale-form", "twin", UT, [("[(first + (last - first - 1) / 2) / fs for first, last in self.firstlast]", "[(first + last - 1) / 2 / fs for first, last in self.firstlast]")], (), ""),
     V("twin-nwin-npmax", "twin", UT, [("max(int(np.ceil(float(ns - nswin) / float(nswin - overlap))), 0) + 1", "1 + max(0, int(np.ceil((ns - nswin) / (nswin - overlap))))")], (), ""),
 ]
+
+# ------------------------------------------------------------------------------------------------ C03
+VARIANTS["C03"] = [
+    V("rounding-removed", "fire", NP, [("        chunk2save = np.round(\n            np.c_[", "        chunk2save = (\n            np.c_[")], ("D1",), "regression of the F3 repair"),
+    V("floor-instead-of-round", "fire", NP, [("        chunk2save = np.round(\n            np.c_[", "        chunk2save = np.floor(\n            np.c_[")], ("D1",), ""),
+    V("taper-eighth", "fire", NP, [("        self.samples_taper = int(self.samples_overlap / 4)\n", "        self.samples_taper = int(self.samples_overlap / 8)\n")], ("D2",),
+      "kept range shrinks: 144 samples duplicated at each seam; constant-valued test files cannot see duplicates... they can (length) - but only via file size"),
+    V("kept-range-three-tapers", "fire", NP, [(
+        "            int((self.samples_window - self.samples_taper * 2) / ratio),\n", "            int((self.samples_window - self.samples_taper * 3) / ratio),\n")], ("D2",),
+      "144 samples lost at every seam"),
+    V("twin-overlap-1152", "twin", NP, [("        self.samples_overlap = 576\n", "        self.samples_overlap = 1152\n")], (), "a different but self-consistent overlap/taper still tiles"),
+    V("last-window-case-dropped", "fire", NP, [("        if wg.iw == wg.nwin - 1:\n            ind2save[1] = int(self.samples_window / ratio)\n", "")], ("D2",), "tail of the recording dropped"),
+    V("last-window-off-by-one", "fire", NP, [("        if wg.iw == wg.nwin - 1:\n", "        if wg.iw == wg.nwin:\n")], ("D2",), ""),
+    V("first-window-keeps-margin", "fire", NP, [("        if wg.iw == 0:\n            ind2save[0] = 0\n", "")], ("D2",), ""),
+    V("sync-cut-differently", "fire", NP, [(
+        "                chunk_sync[:, slice(*ind2save)].T\n", "                chunk_sync[:, slice(ind2save[0], ind2save[1] + 0)].T\n")], (), "twin in behaviour? no: identical range - used to test undecided handling", ),
+    V("chns-sync-first", "fire", NP, [(
+        "            _shank_info[\"chns\"] = np.r_[\n                np.where(chn_info[\"shank\"] == sh)[0],\n                np.array(spikeglx._get_sync_trace_indices_from_meta(self.sr.meta)),\n            ]\n\n            probe_path",
+        "            _shank_info[\"chns\"] = np.r_[\n                np.array(spikeglx._get_sync_trace_indices_from_meta(self.sr.meta)),\n                np.where(chn_info[\"shank\"] == sh)[0],\n            ]\n\n            probe_path")],
+      ("D3",), ""),
+    V("split-writes-sorted-cols", "fire", NP, [("            (chunk[:, self.shank_info[sh][\"chns\"]]).tofile(open)\n", "            (chunk[:, np.sort(self.shank_info[sh][\"chns\"])[::-1]]).tofile(open)\n")], ("D3",), ""),
+    V("reconstruct-without-trim", "fire", NP, [(
+        "                    chunk[:, self.shank_info[sh][\"chns\"][:-1]] = self.shank_info[sh][\"sr\"]._raw[first:last, :-1]\n",
+        "                    chunk[:, self.shank_info[sh][\"chns\"]] = self.shank_info[sh][\"sr\"]._raw[first:last, :]\n")], ("D4",),
+      "sync column overwritten by the last shank (identical here, but the verified reassembly is different)"),
+    V("reconstruct-through-volts", "fire", NP, [(
+        "                    chunk[:, self.shank_info[sh][\"chns\"]] = self.shank_info[sh][\"sr\"]._raw[first:last, :]\n",
+        "                    chunk[:, self.shank_info[sh][\"chns\"]] = self.shank_info[sh][\"sr\"][first:last, :] / self.shank_info[sh][\"sr\"].sample2volts\n")], ("D4",), ""),
+    V("reconstructor-keeps-orig-subset", "fire", NP, [("        _ = meta_shank.pop(\"snsSaveChanSubset_orig\")\n", "")], ("D5",), ""),
+    V("splitter-extra-key", "fire", NP, [(
+        "            meta_shank[\"original_meta\"] = False\n            meta_shank[f\"{self.np_version}_shank\"] = int(sh[-1])\n            meta_file = self.shank_info[sh][\"ap_file\"].with_suffix(\".meta\")",
+        "            meta_shank[\"original_meta\"] = False\n            meta_shank[\"fileTimeSecs\"] = self.nsamples / self.fs_ap\n            meta_shank[f\"{self.np_version}_shank\"] = int(sh[-1])\n            meta_file = self.shank_info[sh][\"ap_file\"].with_suffix(\".meta\")")],
+      ("D5",), "an original field rewritten and never restored"),
+    V("twin-rint", "twin", NP, [("        chunk2save = np.round(\n            np.c_[", "        chunk2save = np.rint(\n            np.c_[")], (), ""),
+    V("twin-taper-expr", "twin", NP, [("        self.samples_taper = int(self.samples_overlap / 4)\n", "        self.samples_taper = self.samples_overlap // 4\n")], (), ""),
+]
+# the "sync-cut-differently" entry is really a twin (same range written another way)
+VARIANTS["C03"] = [v if v.name != "sync-cut-differently" else V("twin-sync-cut-explicit", "twin", NP, v.edits, (), "same range, explicit bounds") for v in VARIANTS["C03"]]
+
+# ------------------------------------------------------------------------------------------------ C12
+VARIANTS["C12"] = [
+    V("sync-stride-off", "fire", NP, [("        chunk_sync = chunk_sync[:, :: self.ratio]\n", "        chunk_sync = chunk_sync[:, :: self.ratio + 1]\n")], ("D2",), ""),
+    V("sync-phase-1", "fire", NP, [("        chunk_sync = chunk_sync[:, :: self.ratio]\n", "        chunk_sync = chunk_sync[:, 1:: self.ratio]\n")], ("D2",), ""),
+    V("fs-lf-3000", "fire", NP, [("        self.fs_lf = 2500\n", "        self.fs_lf = 3000\n")], ("D3", "D1"), ""),
+    V("lf-range-not-divided", "fire", NP, [(
+        "            int((self.samples_window - self.samples_taper * 2) / ratio),\n", "            int(self.samples_window - self.samples_taper * 2),\n")], ("D1",), ""),
+    V("lf-ratio-not-passed", "fire", NP, [(
+        "            chunk_lf2save = self._ind2save(\n                chunk_lf, chunk_lf_sync, wg, ratio=self.ratio, etype=\"lf\"\n            )\n\n            self._split2shanks(chunk_lf2save, etype=\"lf\")\n\n        self._closefiles(etype=\"lf\")\n\n        self._writemetadata_lf()\n\n        if self.compress:\n            self.compress_NP21",
+        "            chunk_lf2save = self._ind2save(\n                chunk_lf, chunk_lf_sync, wg, etype=\"lf\"\n            )\n\n            self._split2shanks(chunk_lf2save, etype=\"lf\")\n\n        self._closefiles(etype=\"lf\")\n\n        self._writemetadata_lf()\n\n        if self.compress:\n            self.compress_NP21")],
+      ("D1",), "NP2.1 path keeps AP-sample bounds on the decimated chunk"),
+    V("window-assert-removed", "fire", NP, [(
+        "        assert (\n            np.mod(self.samples_window, self.ratio) == 0\n        ), f\"nwindow must be a factor or {self.ratio}\"\n", "")], ("D1",), ""),
+    V("sosfilt-one-pass", "fire", NP, [("        chunk = scipy.signal.sosfiltfilt(self.sos_lp, chunk)\n", "        chunk = scipy.signal.sosfilt(self.sos_lp, chunk)\n")], ("D2",), ""),
+    V("decimate-before-filter", "fire", NP, [(
+        "        chunk = scipy.signal.sosfiltfilt(self.sos_lp, chunk)\n        chunk = chunk[:, :: self.ratio]\n", "        chunk = chunk[:, :: self.ratio]\n        chunk = scipy.signal.sosfiltfilt(self.sos_lp, chunk)\n")],
+      ("D2",), ""),
+    V("lf-meta-rate-missing", "fire", NP, [("            meta_shank[\"imSampRate\"] = self.fs_lf\n", "")], ("D3",), ""),
+    V("lf-meta-count", "fire", NP, [("            meta_shank[\"snsApLfSy\"][1] = n_chns - 1\n", "            meta_shank[\"snsApLfSy\"][1] = n_chns\n")], ("D3",), ""),
+    V("twin-ratio-local", "twin", NP, [("        chunk = chunk[:, :: self.ratio]\n        return chunk\n", "        out = chunk[:, :: self.ratio]\n        return out\n")], (), ""),
+]
